@@ -9,10 +9,8 @@ Python code uses.  The driver instantiates `α := Rat` (exact evaluation of the 
 expressions the code evaluates in floating point); the theorems of `Lemmas/GP.lean`,
 `Lemmas/CholeskyVJP.lean`, `Lemmas/EI.lean` instantiate `α := ℝ`.
 
-Vectors are `Fin n → α`, matrices `Fin n → Fin m → α` (row, column) — the carrier of
-Mathlib's `Matrix (Fin n) (Fin m) α`.  `memoV` / `memoM` evaluate a vector / matrix once
-into a `Vector` (they are the identity, `memoV_eq` / `memoM_eq`), so that the recursive
-substitutions run in polynomial time under `lean --run`.
+Vectors are `Vec α n = Vector α n`, matrices `Mat α n m = Vector (Vector α m) n`
+(row major, like the numpy arrays); `A[i][j]` is the entry in row `i`, column `j`.
 
 What is *not* here (trusted, exercised by the correspondence): LAPACK `potrf`/`trsm`,
 `sqrt`, `exp`, `erfc`, `log`, IEEE round-off, the jitter search of `AddJitterOp`.
@@ -21,23 +19,20 @@ heads as the already evaluated numbers `phi`, `Phi`.
 -/
 namespace SyneTune.GP
 
+abbrev Vec (α : Type) (n : Nat) := Vector α n
+abbrev Mat (α : Type) (n m : Nat) := Vector (Vector α m) n
+
 variable {α : Type}
 
-/-! ### memoisation (identity functions) -/
+def Vec.of {n : Nat} (f : Fin n → α) : Vec α n := Vector.ofFn f
+def Mat.of {n m : Nat} (f : Fin n → Fin m → α) : Mat α n m := Vector.ofFn fun i => Vector.ofFn (f i)
 
-@[noinline] def memoV {n : Nat} (x : Fin n → α) : Fin n → α :=
-  let a := Vector.ofFn x
-  fun i => a[i.val]
+@[simp] theorem Vec.of_get {n : Nat} (f : Fin n → α) (i : Fin n) : (Vec.of f)[i] = f i := by
+  simp [Vec.of]
 
-@[noinline] def memoM {n m : Nat} (x : Fin n → Fin m → α) : Fin n → Fin m → α :=
-  let a := Vector.ofFn fun i => Vector.ofFn (x i)
-  fun i j => (a[i.val])[j.val]
-
-theorem memoV_eq {n : Nat} (x : Fin n → α) : memoV x = x := by
-  funext i; simp [memoV]
-
-theorem memoM_eq {n m : Nat} (x : Fin n → Fin m → α) : memoM x = x := by
-  funext i j; simp [memoM]
+@[simp] theorem Mat.of_get {n m : Nat} (f : Fin n → Fin m → α) (i : Fin n) (j : Fin m) :
+    (Mat.of f)[i][j] = f i j := by
+  simp [Mat.of]
 
 /-! ### sums, products, borders -/
 
@@ -50,33 +45,34 @@ def sumFin {n : Nat} (f : Fin n → α) : α := (List.ofFn f).sum
 def dot {n : Nat} (u v : Fin n → α) : α := sumFin fun i => u i * v i
 
 /-- `anp.matmul(A, B)` -/
-def matMul {n k m : Nat} (A : Fin n → Fin k → α) (B : Fin k → Fin m → α) : Fin n → Fin m → α :=
-  fun i j => dot (fun l => A i l) (fun l => B l j)
+def matMul {n k m : Nat} (A : Mat α n k) (B : Mat α k m) : Mat α n m :=
+  Mat.of fun i j => dot (fun l => A[i][l]) (fun l => B[l][j])
 
 end arith
 
-def transpose {n m : Nat} (A : Fin n → Fin m → α) : Fin m → Fin n → α := fun i j => A j i
+def transpose {n m : Nat} (A : Mat α n m) : Mat α m n := Mat.of fun i j => A[j][i]
 
-/-- append one entry to a vector (`anp.concatenate([x, [a]])`) -/
-def snocV {n : Nat} (x : Fin n → α) (a : α) : Fin (n + 1) → α :=
-  fun i => if h : i.val < n then x ⟨i.val, h⟩ else a
+/-- column `j` as a vector -/
+def col {n m : Nat} (A : Mat α n m) (j : Fin m) : Vec α n := Vec.of fun i => A[i][j]
 
-/-- append one row to a matrix (`anp.concatenate([P, pvec], axis=0)`) -/
-def snocRow {n m : Nat} (P : Fin n → Fin m → α) (p : Fin m → α) : Fin (n + 1) → Fin m → α :=
-  fun i => if h : i.val < n then P ⟨i.val, h⟩ else p
+/-- matrix from its columns -/
+def ofCols {n m : Nat} (C : Fin m → Vec α n) : Mat α n m :=
+  let cs := Vector.ofFn C
+  Mat.of fun i j => cs[j][i]
 
-/-- the bordered matrix `[[A, c], [r, d]]` -/
-def border {n : Nat} (A : Fin n → Fin n → α) (c r : Fin n → α) (d : α) :
-    Fin (n + 1) → Fin (n + 1) → α :=
-  fun i j =>
-    if hi : i.val < n then
-      (if hj : j.val < n then A ⟨i.val, hi⟩ ⟨j.val, hj⟩ else c ⟨i.val, hi⟩)
-    else
-      (if hj : j.val < n then r ⟨j.val, hj⟩ else d)
+/-- all but the last entry -/
+def initV {n : Nat} (x : Vec α (n + 1)) : Vec α n := Vec.of fun i => x[i.castSucc]
 
 /-- leading principal `n × n` block -/
-def lead {n : Nat} (A : Fin (n + 1) → Fin (n + 1) → α) : Fin n → Fin n → α :=
-  fun i j => A i.castSucc j.castSucc
+def lead {n : Nat} (A : Mat α (n + 1) (n + 1)) : Mat α n n := Mat.of fun i j => A[i.castSucc][j.castSucc]
+
+/-- the last row without its last entry -/
+def lastRow {n : Nat} (A : Mat α (n + 1) (n + 1)) : Vec α n := Vec.of fun j => A[Fin.last n][j.castSucc]
+
+/-- the bordered matrix `[[A, c], [r, d]]`
+(`concatenate([concatenate([A, r], axis=0), concatenate([c, d], axis=0)], axis=1)`) -/
+def border {n : Nat} (A : Mat α n n) (c r : Vec α n) (d : α) : Mat α (n + 1) (n + 1) :=
+  (Vector.ofFn fun i : Fin n => (A[i]).push c[i]).push (r.push d)
 
 /-! ### triangular solves (`aspl.solve_triangular(L, ·, lower=True[, trans="T"])`) -/
 
@@ -85,30 +81,28 @@ variable [Zero α] [Add α] [Mul α] [Sub α] [Div α]
 
 /-- forward substitution: the `x` with `L x = b` for lower triangular `L`
 (`xᵢ = (bᵢ − Σ_{j<i} Lᵢⱼ xⱼ) / Lᵢᵢ`; the strict upper part of `L` is never read). -/
-def solveLower : (n : Nat) → (Fin n → Fin n → α) → (Fin n → α) → (Fin n → α)
-  | 0, _, _ => fun i => i.elim0
+def solveLower : (n : Nat) → Mat α n n → Vec α n → Vec α n
+  | 0, _, _ => #v[]
   | n + 1, L, b =>
-    let x' := memoV (solveLower n (lead L) (fun i => b i.castSucc))
-    let xn := (b (Fin.last n) - dot (fun j => L (Fin.last n) j.castSucc) x') / L (Fin.last n) (Fin.last n)
-    snocV x' xn
+    let x' := solveLower n (lead L) (initV b)
+    let xn := (b[Fin.last n] - dot (fun j => L[Fin.last n][j.castSucc]) (fun j => x'[j])) / L[Fin.last n][Fin.last n]
+    x'.push xn
 
 /-- back substitution with the transpose: the `x` with `Lᵀ x = b` for lower triangular `L`
 (`trans="T"`; again only the lower part of `L` is read). -/
-def solveLowerT : (n : Nat) → (Fin n → Fin n → α) → (Fin n → α) → (Fin n → α)
-  | 0, _, _ => fun i => i.elim0
+def solveLowerT : (n : Nat) → Mat α n n → Vec α n → Vec α n
+  | 0, _, _ => #v[]
   | n + 1, L, b =>
-    let xn := b (Fin.last n) / L (Fin.last n) (Fin.last n)
-    let x' := memoV (solveLowerT n (lead L) (fun i => b i.castSucc - L (Fin.last n) i.castSucc * xn))
-    snocV x' xn
+    let xn := b[Fin.last n] / L[Fin.last n][Fin.last n]
+    let x' := solveLowerT n (lead L) (Vec.of fun i => b[i.castSucc] - L[Fin.last n][i.castSucc] * xn)
+    x'.push xn
 
 /-- matrix right-hand side: column by column -/
-def solveLowerM {n m : Nat} (L : Fin n → Fin n → α) (B : Fin n → Fin m → α) : Fin n → Fin m → α :=
-  let C := memoM fun j => memoV (solveLower n L (fun i => B i j))
-  fun i j => C j i
+def solveLowerM {n m : Nat} (L : Mat α n n) (B : Mat α n m) : Mat α n m :=
+  ofCols fun j => solveLower n L (col B j)
 
-def solveLowerTM {n m : Nat} (L : Fin n → Fin n → α) (B : Fin n → Fin m → α) : Fin n → Fin m → α :=
-  let C := memoM fun j => memoV (solveLowerT n L (fun i => B i j))
-  fun i j => C j i
+def solveLowerTM {n m : Nat} (L : Mat α n n) (B : Mat α n m) : Mat α n m :=
+  ofCols fun j => solveLowerT n L (col B j)
 
 end solve
 
@@ -120,52 +114,52 @@ def maxOf [LT α] [DecidableLT α] (a b : α) : α := if a < b then b else a
 section predict
 variable [Zero α] [Add α] [Mul α] [Sub α] [Div α]
 
-/-- `k_tr_te = kernel(features, test_features) * covariance_scale` -/
-def scaleM {n m : Nat} (K : Fin n → Fin m → α) (s : α) : Fin n → Fin m → α := fun i j => K i j * s
+/-- `kernel(X1, X2) * covariance_scale` -/
+def scaleM {n m : Nat} (K : Mat α n m) (s : α) : Mat α n m := Mat.of fun i j => K[i][j] * s
 
 /-- `matmul(transpose(linv_k_tr_te), pred_mat) + reshape(mean(test_features), (-1, 1))` -/
-def predMean {n t m : Nat} (V : Fin n → Fin t → α) (P : Fin n → Fin m → α) (ms : Fin t → α) :
-    Fin t → Fin m → α :=
-  fun i j => dot (fun k => V k i) (fun k => P k j) + ms i
+def predMean {n t m : Nat} (V : Mat α n t) (P : Mat α n m) (ms : Vec α t) : Mat α t m :=
+  Mat.of fun i j => dot (fun k => V[k][i]) (fun k => P[k][j]) + ms[i]
 
 /-- `kernel.diagonal(test_features) * covariance_scale - sum(square(linv_k_tr_te), axis=0)` -/
-def predVarRaw {n t : Nat} (V : Fin n → Fin t → α) (kd : Fin t → α) : Fin t → α :=
-  fun i => kd i - sumFin (fun k => V k i * V k i)
+def predVarRaw {n t : Nat} (V : Mat α n t) (kd : Vec α t) : Vec α t :=
+  Vec.of fun i => kd[i] - sumFin (fun k => V[k][i] * V[k][i])
 
 /-- `kernel(test, test) * covariance_scale - dot(transpose(linv_k_tr_te), linv_k_tr_te)` -/
-def jointCov {n t : Nat} (V : Fin n → Fin t → α) (Kss : Fin t → Fin t → α) : Fin t → Fin t → α :=
-  fun i j => Kss i j - dot (fun k => V k i) (fun k => V k j)
+def jointCov {n t : Nat} (V : Mat α n t) (Kss : Mat α t t) : Mat α t t :=
+  Mat.of fun i j => Kss[i][j] - dot (fun k => V[k][i]) (fun k => V[k][j])
 
 structure Marginals (α : Type) (t m : Nat) where
-  means : Fin t → Fin m → α
-  vars : Fin t → α
+  means : Mat α t m
+  vars : Vec α t
 
 /-- `predict_posterior_marginals(features, mean, kernel, chol_fact, pred_mat, test_features)`:
 `Ks = kernel(features, test_features)`, `kd = kernel.diagonal(test_features)`,
 `ms = mean(test_features)`, `floor = MIN_POSTERIOR_VARIANCE`. -/
-def predictMarginals [LT α] [DecidableLT α] {n t m : Nat} (L : Fin n → Fin n → α)
-    (P : Fin n → Fin m → α) (Ks : Fin n → Fin t → α) (scale : α) (kd ms : Fin t → α) (floor : α) :
+def predictMarginals [LT α] [DecidableLT α] {n t m : Nat} (L : Mat α n n)
+    (P : Mat α n m) (Ks : Mat α n t) (scale : α) (kd ms : Vec α t) (floor : α) :
     Marginals α t m :=
-  let V := solveLowerM L (memoM (scaleM Ks scale))
-  { means := memoM (predMean V P ms)
-    vars := memoV fun i => maxOf (predVarRaw V (fun i => kd i * scale) i) floor }
+  let V := solveLowerM L (scaleM Ks scale)
+  let raw := predVarRaw V (Vec.of fun i => kd[i] * scale)
+  { means := predMean V P ms
+    vars := Vec.of fun i => maxOf raw[i] floor }
 
 structure Joint (α : Type) (t m : Nat) where
-  mean : Fin t → Fin m → α
-  cov : Fin t → Fin t → α
+  mean : Mat α t m
+  cov : Mat α t t
   /-- `posterior_cov + jitter_init * I`, the matrix handed to the Cholesky factorisation
   when `AddJitterOp` adds no further jitter -/
-  sys : Fin t → Fin t → α
+  sys : Mat α t t
 
 /-- mean and covariance computed by `sample_posterior_joint`. -/
-def posteriorJoint {n t m : Nat} (L : Fin n → Fin n → α) (P : Fin n → Fin m → α)
-    (Ks : Fin n → Fin t → α) (Kss : Fin t → Fin t → α) (scale : α) (ms : Fin t → α) (jit : α) :
+def posteriorJoint {n t m : Nat} (L : Mat α n n) (P : Mat α n m)
+    (Ks : Mat α n t) (Kss : Mat α t t) (scale : α) (ms : Vec α t) (jit : α) :
     Joint α t m :=
-  let V := solveLowerM L (memoM (scaleM Ks scale))
-  let C := memoM (jointCov V (scaleM Kss scale))
-  { mean := memoM (predMean V P ms)
+  let V := solveLowerM L (scaleM Ks scale)
+  let C := jointCov V (scaleM Kss scale)
+  { mean := predMean V P ms
     cov := C
-    sys := fun i j => if i = j then C i j + jit else C i j }
+    sys := Mat.of fun i j => if i = j then C[i][j] + jit else C[i][j] }
 
 end predict
 
@@ -175,14 +169,14 @@ section nll
 variable [Zero α] [One α] [Add α] [Mul α] [Neg α] [LT α] [DecidableLT α]
 
 /-- `anp.sum(anp.square(pred_mat))` -/
-def sqNorm {n m : Nat} (P : Fin n → Fin m → α) : α := sumFin fun i => sumFin fun j => P i j * P i j
+def sqNorm {n m : Nat} (P : Mat α n m) : α := sumFin fun i => sumFin fun j => P[i][j] * P[i][j]
 
 def absOf (x : α) : α := if x < 0 then -x else x
 
 def prodFin {n : Nat} (f : Fin n → α) : α := (List.ofFn f).foldr (· * ·) 1
 
 /-- `∏ |Lᵢᵢ|`; the code's `logdet_cholfact` is `2 · log` of it (`= 2 Σ log |Lᵢᵢ|`). -/
-def diagAbsProd {n : Nat} (L : Fin n → Fin n → α) : α := prodFin fun i => absOf (L i i)
+def diagAbsProd {n : Nat} (L : Mat α n n) : α := prodFin fun i => absOf L[i][i]
 
 end nll
 
@@ -192,40 +186,51 @@ section update
 variable [Zero α] [Add α] [Mul α] [Sub α] [Div α] [LT α] [DecidableLT α]
 
 structure Update (α : Type) (n m : Nat) where
-  lvec : Fin n → α
+  lvec : Vec α n
   lsq : α
   lscal : α
-  L : Fin (n + 1) → Fin (n + 1) → α
-  P : Fin (n + 1) → Fin m → α
+  L : Mat α (n + 1) (n + 1)
+  P : Mat α (n + 1) m
 
-/-- `cholesky_update(features, mean, kernel, chol_fact, pred_mat, noise_variance, feature, target)`.
-`kvec = kernel(features, feature)`, `kdiag = kernel.diagonal(feature)`, `mscal = mean(feature)`,
+/-- `_compute_lvec`: `solve_triangular(chol_fact, kernel(features, feature) * covariance_scale)` -/
+def computeLvec {n : Nat} (L : Mat α n n) (kvec : Vec α n) (scale : α) : Vec α n :=
+  solveLower n L (Vec.of fun i => kvec[i] * scale)
+
+/-- `cholesky_update(features, mean, kernel, chol_fact, pred_mat, noise_variance, feature, target, lvec)`.
+`kdiag = kernel.diagonal(feature)`, `mscal = mean(feature)`,
 `minDiag = MIN_CHOLESKY_DIAGONAL_VALUE`, `sqrt` the square-root oracle. -/
-def cholUpdate {n m : Nat} (sqrt : α → α) (minDiag : α) (L : Fin n → Fin n → α)
-    (P : Fin n → Fin m → α) (kvec : Fin n → α) (scale kdiag noise mscal : α) (target : Fin m → α)
-    (lvec : Fin n → α := memoV (solveLower n L (fun i => kvec i * scale))) : Update α n m :=
+def cholUpdateWith {n m : Nat} (sqrt : α → α) (minDiag : α) (L : Mat α n n)
+    (P : Mat α n m) (scale kdiag noise mscal : α) (target : Vec α m) (lvec : Vec α n) :
+    Update α n m :=
   let kscal := kdiag * scale
-  let lsq := maxOf (kscal + noise - sumFin (fun k => lvec k * lvec k)) (minDiag * minDiag)
+  let lsq := maxOf (kscal + noise - sumFin (fun k => lvec[k] * lvec[k])) (minDiag * minDiag)
   let lscal := sqrt lsq
-  let pvec : Fin m → α := memoV fun j => (target j - mscal - dot lvec (fun k => P k j)) / lscal
+  let pvec : Vec α m := Vec.of fun j => (target[j] - mscal - dot (fun k => lvec[k]) (fun k => P[k][j])) / lscal
   { lvec := lvec, lsq := lsq, lscal := lscal
-    L := border L (fun _ => 0) lvec lscal
-    P := snocRow P pvec }
+    L := border L (Vec.of fun _ => 0) lvec lscal
+    P := P.push pvec }
+
+/-- `cholesky_update(...)` with `lvec=None`; `kvec = kernel(features, feature)`. -/
+def cholUpdate {n m : Nat} (sqrt : α → α) (minDiag : α) (L : Mat α n n)
+    (P : Mat α n m) (kvec : Vec α n) (scale kdiag noise mscal : α) (target : Vec α m) :
+    Update α n m :=
+  cholUpdateWith sqrt minDiag L P scale kdiag noise mscal target (computeLvec L kvec scale)
 
 structure SampleUpdate (α : Type) (n m : Nat) where
-  target : Fin m → α
+  target : Vec α m
   upd : Update α n m
 
 /-- `sample_and_cholesky_update(...)` with the standard-normal draws `n01` made explicit
 (already zeroed where `mean_impute_mask` is set); `minVar = MIN_POSTERIOR_VARIANCE`. -/
-def sampleAndUpdate {n m : Nat} (sqrt : α → α) (minDiag minVar : α) (L : Fin n → Fin n → α)
-    (P : Fin n → Fin m → α) (kvec : Fin n → α) (scale kdiag noise mscal : α) (n01 : Fin m → α) :
+def sampleAndUpdate {n m : Nat} (sqrt : α → α) (minDiag minVar : α) (L : Mat α n n)
+    (P : Mat α n m) (kvec : Vec α n) (scale kdiag noise mscal : α) (n01 : Vec α m) :
     SampleUpdate α n m :=
-  let lvec := memoV (solveLower n L (fun i => kvec i * scale))
-  let predStd := sqrt (maxOf (kdiag * scale - sumFin (fun k => lvec k * lvec k)) minVar)
-  let target : Fin m → α := memoV fun j => (dot lvec (fun k => P k j) + mscal) + n01 j * predStd
+  let lvec := computeLvec L kvec scale
+  let predStd := sqrt (maxOf (kdiag * scale - sumFin (fun k => lvec[k] * lvec[k])) minVar)
+  let target : Vec α m :=
+    Vec.of fun j => (dot (fun k => lvec[k]) (fun k => P[k][j]) + mscal) + n01[j] * predStd
   { target := target
-    upd := cholUpdate sqrt minDiag L P kvec scale kdiag noise mscal target lvec }
+    upd := cholUpdateWith sqrt minDiag L P scale kdiag noise mscal target lvec }
 
 end update
 
@@ -236,12 +241,12 @@ variable [Zero α] [Add α] [Mul α] [Sub α] [Div α]
 
 /-- `copyltu(x) = tril(x) + transpose(tril(x, -1))`: lower triangle (with diagonal) copied
 to the upper triangle. -/
-def copyltu {n : Nat} (X : Fin n → Fin n → α) : Fin n → Fin n → α :=
-  fun i j => if j.val ≤ i.val then X i j else X j i
+def copyltu {n : Nat} (X : Mat α n n) : Mat α n n :=
+  Mat.of fun i j => if j.val ≤ i.val then X[i][j] else X[j][i]
 
 /-- `np.tril` -/
-def tril {n : Nat} (X : Fin n → Fin n → α) : Fin n → Fin n → α :=
-  fun i j => if j.val ≤ i.val then X i j else 0
+def tril {n : Nat} (X : Mat α n n) : Mat α n n :=
+  Mat.of fun i j => if j.val ≤ i.val then X[i][j] else 0
 
 /-- `cholesky_factorization_backward(l, lbar)`:
 ```
@@ -250,17 +255,16 @@ abar = transpose(solve_triangular(l, abar, lower=True, trans="T"))
 abar = solve_triangular(l, abar, lower=True, trans="T")
 return 0.5 * abar
 ``` -/
-def cholBackward [OfNat α 2] {n : Nat} (L Lbar : Fin n → Fin n → α) : Fin n → Fin n → α :=
-  let M := memoM (copyltu (matMul (transpose L) Lbar))
-  let Z := solveLowerTM L M
-  let A1 := memoM (transpose Z)
+def cholBackward [OfNat α 2] {n : Nat} (L Lbar : Mat α n n) : Mat α n n :=
+  let M := copyltu (matMul (transpose L) Lbar)
+  let A1 := transpose (solveLowerTM L M)
   let W := solveLowerTM L A1
-  fun i j => W i j / 2
+  Mat.of fun i j => W[i][j] / 2
 
 /-- `AddJitterOp_vjp(...)(g) = append(reshape(g, (-1,)), sum(diag(g)))`: cotangents of the
 matrix argument and of the scalar `sigsq_init`. -/
-def jitterVjp {n : Nat} (g : Fin n → Fin n → α) : (Fin n → Fin n → α) × α :=
-  (g, sumFin fun i => g i i)
+def jitterVjp {n : Nat} (g : Mat α n n) : Mat α n n × α :=
+  (g, sumFin fun i => g[i][i])
 
 end vjp
 
@@ -297,7 +301,8 @@ def eiHeadGrad {nf : Nat} (sd : α) (u Phi phi : Fin nf → α) : HeadGrad α nf
 def lcbHead {nf : Nat} (kappa sd : α) (mu : Fin nf → α) : α :=
   sumFin (fun j => mu j - sd * kappa) / (nf : α)
 
-/-- `LCBAcquisitionFunction._compute_head_and_gradient` -/
+/-- `LCBAcquisitionFunction._compute_head_and_gradient`:
+`dh_dmean = ones_like(mean) / nf`, `dh_dstd = (-kappa) * ones_like(std)` -/
 def lcbHeadGrad [One α] {nf : Nat} (kappa sd : α) (mu : Fin nf → α) : HeadGrad α nf :=
   { hval := sumFin (fun j => mu j - sd * kappa) / (nf : α)
     dmean := fun _ => 1 / (nf : α)
